@@ -167,6 +167,12 @@ func runLog(res *report.Result, tier string, seed int64, replay string) {
 				}
 				return uint64(lo + rng.Int63n(int64(lastI)+3-lo+1))
 			}
+			rq := func() uint64 { // a query index: as ri, or far beyond the log (a difference that does not fit an int)
+				if rng.Intn(12) == 0 {
+					return 1<<63 + uint64(rng.Intn(3))
+				}
+				return ri()
+			}
 			rt := func() uint64 { return uint64(1 + rng.Intn(5)) }
 			termOf := func(i uint64) uint64 {
 				if t, err := vl.Term(i); err == nil && rng.Intn(4) != 0 {
@@ -274,7 +280,7 @@ func runLog(res *report.Result, tier string, seed int64, replay string) {
 				line = fmt.Sprintf("appliedto %d %d", i, sz)
 				call(func() string { vl.AppliedTo(i, sz); return "ok" })
 			case 20, 21:
-				i := ri()
+				i := rq()
 				line = fmt.Sprintf("term %d", i)
 				call(func() string {
 					t, err := vl.Term(i)
@@ -346,7 +352,7 @@ func runLog(res *report.Result, tier string, seed int64, replay string) {
 					return "ok"
 				})
 			case 30:
-				i := ri()
+				i := rq()
 				line = fmt.Sprintf("sterm %d", i)
 				a := absOfStorage(ms)
 				call(func() string {
